@@ -370,6 +370,11 @@ func chainReplay(args []string) {
 							id = 1
 						}
 
+						// (every third key of a chain has a coordinate that begins with a zero byte)
+						if id%3 == 0 && kt != "ed" {
+							return pool.Get(kt, fmt.Sprintf("rare:chain%d", id))
+						}
+
 						return pool.Get(kt, fmt.Sprintf("chain%d", id))
 					}
 
@@ -466,6 +471,17 @@ func chainReplay(args []string) {
 						signer := material(o.Signer)
 						jwk := keyOf(o.Signer)
 						signed := map[string]interface{}{"anchorFrom": 1 + i, "anchorUntil": 3 + i}
+
+						// (windows with one bound only, and without bounds)
+						switch (i + len(cl.Ops)) % 4 {
+						case 1:
+							delete(signed, "anchorUntil")
+						case 2:
+							delete(signed, "anchorFrom")
+						case 3:
+							delete(signed, "anchorFrom")
+							delete(signed, "anchorUntil")
+						}
 						req := map[string]interface{}{"type": o.Type, "didSuffix": testSuffix, "revealValue": refReveal(jwkMap(jwk), algOfKey(o.Signer))}
 
 						switch o.Type {
